@@ -141,7 +141,46 @@ func runC16(c *Ctx) {
 			c.Unk("C16.K5-watcher-needs-subscription", "announce › go watch", token.NoPos, "watcher is never started with a go statement")
 		}
 	}
-	c.Floor("C16.K5-watcher-needs-subscription", 1)
+	// K5b: whoever creates the channel Close waits on also starts the goroutine that closes it — on every path
+	if watchFn != nil && waitRecv != nil {
+		nMk := 0
+		for _, f := range c.Funcs(pkg) {
+			instrs(f.SSA, func(in ssa.Instruction) {
+				st, ok := in.(*ssa.Store)
+				if !ok {
+					return
+				}
+				if a := c.E(st.Addr); a.Op != "field" || a.Name != "watchDone" || fieldOwner(a) != "Receiver" {
+					return
+				}
+				if _, isMk := unwrapV(st.Val).(*ssa.MakeChan); !isMk {
+					return
+				}
+				nMk++
+				started := func(i ssa.Instruction) bool {
+					g, ok := i.(*ssa.Go)
+					return ok && g.Common().StaticCallee() == watchFn
+				}
+				// already started before the store (same path), or started on every path after it
+				before := false
+				for _, i := range st.Block().Instrs {
+					if i == ssa.Instruction(st) {
+						break
+					}
+					if started(i) {
+						before = true
+					}
+				}
+				ok2, path := pathsFromPass(st, started)
+				c.Check(before || ok2, "C16.K5-watcher-needs-subscription", f.Name+" › done channel implies watcher", st.Pos(),
+					"on every path, creating the channel Close waits on is followed by starting the watcher that closes it", "the channel Close waits on is created on a path that does not start the watcher ("+path+"): Close blocks forever")
+			})
+		}
+		if nMk == 0 {
+			c.Unk("C16.K5-watcher-needs-subscription", "announce › done channel", token.NoPos, "Close waits on a channel that no function creates")
+		}
+	}
+	c.Floor("C16.K5-watcher-needs-subscription", 2)
 
 	// ---- K6: closed test before cache access; watcher loop exits ---------------------
 	closedFalse := func(in ssa.Instruction) bool {
